@@ -1,0 +1,25 @@
+//go:build verif
+
+package core
+
+// This file is only compiled with the "verif" build tag. It lets the external
+// verification harness preset (or forget) the per-device filesystem behaviour
+// that Scan would otherwise probe, so that scans of a filesystem that does not
+// preserve executability or that decomposes Unicode can be exercised on an
+// ordinary filesystem. No call site is changed: Scan already consults
+// behaviorCache before probing.
+
+// VerifSetBehavior records the behaviour Scan should assume for the filesystem
+// with the given device ID; with set == false the record is removed and Scan
+// probes again.
+func VerifSetBehavior(deviceID uint64, set, preservesExecutability, decomposesUnicode bool) {
+	behaviorCache.Lock()
+	defer behaviorCache.Unlock()
+	if set {
+		behaviorCache.preservesExecutability[deviceID] = preservesExecutability
+		behaviorCache.decomposesUnicode[deviceID] = decomposesUnicode
+	} else {
+		delete(behaviorCache.preservesExecutability, deviceID)
+		delete(behaviorCache.decomposesUnicode, deviceID)
+	}
+}
